@@ -4,6 +4,7 @@
   such runs whose answers are what an honest world gives: the store returns what was stored (C12), the provider is
   standards-compliant (`CompliantAnswer`), the key source works.
 -/
+import AuthProofs.StateInventory
 import AuthProofs.Login
 import AuthProofs.Cookie
 namespace AuthProps.C03
@@ -73,9 +74,13 @@ theorem cookie_read_back (cfg : Cfg) (sid : Str) (hp : ∀ b ∈ cfg.cookiePrefi
 /-- the provider may answer with any capitalisation of the token type -/
 example : isBearer (B "Bearer") = true ∧ isBearer (B "bearer") = true ∧ isBearer (B "BEARER") = true ∧ isBearer (B "mac") = false := by decide
 
+/-- NO HIDDEN STATE: the model treats a check as a function of (configuration, request, store answers, clock, IdP and key-source answers, entropy); that is a faithful reading of the code only if nothing else survives from one check to the next. Regenerated on every run: every package-level variable and struct field of internal/server, internal/authz, internal/http, internal/oidc is the classified expectation, and handlers, filter, HTTP helpers and the Redis store own no mutable state (no verdict cache, handler cache, object pool, single-flight group or per-process copy of session data). -/
+theorem no_hidden_state : CheckPathInventory := check_path_inventory
+
 end AuthProps.C03
 
 #print axioms AuthProps.C03.login_completes
 #print axioms AuthProps.C03.no_reauth_while_valid
 #print axioms AuthProps.C03.no_expires_in_no_expiry
 #print axioms AuthProps.C03.cookie_read_back
+#print axioms AuthProps.C03.no_hidden_state
